@@ -184,6 +184,11 @@ def paths(t, cond=()):
         else:
             yield (cond + ((repr(t[1]), False, t[1]),), None)
         return
+    if isinstance(t, list) and t and isinstance(t[0], list) and t[0] and t[0][0] == Sym("lambda") and len(t) > 1 and len(t[0]) >= 3 \
+            and isinstance(t[0][1], list) and len(t[0][1]) == len(t) - 1:
+        # ((lambda (v ...) body ... last) e ...): a let; the value is that of the last body expression
+        yield from paths(t[0][-1], cond)
+        return
     if isinstance(t, list) and t and isinstance(t[0], list) and t[0] and t[0][0] == Sym("lambda") and len(t) == 1 and not t[0][1]:
         # ((lambda () e1 ... en)) : a sequence; a single expression is that expression
         if len(t[0]) == 3:
